@@ -100,6 +100,20 @@ class FuncC:
         self.ghost_exit_l.append(stmt)
         return self
 
+    def witness_fun(self, name, args, res, bound_to):
+        """existential function of the postcondition: callers get a fresh function symbol `name` per call; the callee proves the
+        postcondition with `name` := its ghost function `bound_to` (e.g. the inverse permutation delivered by sorted())"""
+        if not hasattr(self, "witness_funs"):
+            self.witness_funs, self.witness_bind = {}, {}
+        self.witness_funs[name] = FunS(args, res)
+        self.witness_bind[name] = (FunS(args, res), bound_to)
+        return self
+
+    def hint_exit(self, expr, label=None):
+        """intermediate assertion at the normal exit: proved first, then available to the postconditions"""
+        self.hints_l.append((expr, label or "hint%d" % len(self.hints_l)))
+        return self
+
     def ghost_entry(self, stmt):
         self.ghost_entry_l.append(stmt)
         return self
